@@ -87,7 +87,14 @@ def gen_lock():
     return 'optimistic_lock.hpp version_type / atomic_version_type', out
 
 
-TARGETS = {'enc': ('GenEncode.v', gen_encode), 'float': ('GenFloat.v', gen_float), 'lock': ('GenLockWord.v', gen_lock)}
+def gen_shape(which):
+    import shape2v
+    origin, body, imp = shape2v.gen_mutex() if which == 'mutex' else shape2v.gen_ptr()
+    return origin, body, imp
+
+
+TARGETS = {'enc': ('GenEncode.v', gen_encode), 'float': ('GenFloat.v', gen_float), 'lock': ('GenLockWord.v', gen_lock),
+           'mutex': ('GenMutexMethods.v', lambda: gen_shape('mutex')), 'ptr': ('GenPtrMethods.v', lambda: gen_shape('ptr'))}
 
 
 def main(argv):
@@ -101,8 +108,12 @@ def main(argv):
         fn, g = TARGETS[t]
         path = os.path.join(GEN, fn)
         try:
-            origin, body = g()
-            emit(path, origin, body)
+            r = g()
+            if len(r) == 3:
+                import shape2v
+                shape2v.emit(path, r[0], r[1], r[2])
+            else:
+                emit(path, r[0], r[1])
         except Unsupported as e:
             errs[t] = str(e)
             emit(path, 'TRANSLATION FAILED', '(* translator failure: %s *)\n' % str(e).replace('*)', '* )'))
